@@ -82,8 +82,12 @@ fn payloads() -> Vec<(String, Vec<u8>)> {
         ("1000 pseudo-random bytes".into(), rnd(1000)),
         ("70000 pseudo-random bytes".into(), rnd(70_000)),
         ("1 MiB repetitive".into(), vec![0xABu8; 1 << 20]),
+
         ("300000 pseudo-random bytes".into(), rnd(300_000)),
         ("text".into(), "the quick brown fox jumps over the lazy dog. ".repeat(500).into_bytes()),
+        // (new payloads go at the end: cases refer to the ones above by position)
+        ("65537 zero bytes".into(), vec![0u8; 65537]),
+        ("200008 bytes of a 4-byte pattern".into(), b"abcd".iter().cycle().take(200_008).cloned().collect()),
     ]
 }
 
@@ -339,6 +343,50 @@ fn cases() -> Vec<Case> {
             }),
         });
     }
+    // C14 over histories, encoder side: an encode that fails after some fields were written must not influence the next one
+    out.push(Case {
+        name: "BincodeCodec: a value whose serialisation fails half-way is encoded (Err), then a good value".into(),
+        props: "C14",
+        run: Box::new(move || {
+            #[derive(Debug, PartialEq, Clone, Deserialize)]
+            struct Pair {
+                a: u64,
+                b: u64,
+            }
+            struct Failing {
+                a: u64,
+            }
+            impl Serialize for Failing {
+                fn serialize<S: serde::Serializer>(&self, s: S) -> std::result::Result<S::Ok, S::Error> {
+                    use serde::ser::SerializeStruct;
+                    let mut st = s.serialize_struct("Pair", 2)?;
+                    st.serialize_field("a", &self.a)?;
+                    Err(serde::ser::Error::custom("second field cannot be serialised"))
+                }
+            }
+            impl Serialize for Pair {
+                fn serialize<S: serde::Serializer>(&self, s: S) -> std::result::Result<S::Ok, S::Error> {
+                    use serde::ser::SerializeStruct;
+                    let mut st = s.serialize_struct("Pair", 2)?;
+                    st.serialize_field("a", &self.a)?;
+                    st.serialize_field("b", &self.b)?;
+                    st.end()
+                }
+            }
+            let bad: BincodeCodec<Failing> = BincodeCodec::default();
+            if bad.encode(Failing { a: 666 }).is_ok() {
+                return Err("a value that cannot be serialised was encoded".into());
+            }
+            let good: BincodeCodec<Pair> = BincodeCodec::default();
+            let v = Pair { a: 1, b: 2 };
+            let e = good.encode(v.clone()).map_err(|e| format!("{e:?}"))?;
+            let d = good.decode(&mut BytesMut::from(&e[..])).map_err(|e| format!("decode of own encoding failed: {e:?}"))?;
+            if d != v {
+                return Err(format!("after a failed encode, {v:?} came back as {d:?}"));
+            }
+            Ok(())
+        }),
+    });
     // C06: hostile bytes to the bincode codec (length prefixes that promise far more than is there)
     for (name, b) in [
         ("string length 2^40", [(1u64 << 40).to_le_bytes().to_vec(), b"abc".to_vec()].concat()),
